@@ -1355,8 +1355,8 @@ void run_views_case(report_t& r, const std::string& one, std::vector<int> schema
 int stage_views(const args_t& args, report_t& r)
 {
     const bool T = args.thorough();
-    // thorough: length-3 schemas over 8 representative kinds (one per storage pool / encoding)
-    const schemas_t        schemas(T ? 3 : 2, {1, 2, 3, 4, 6, 13, 14, 15});
+    // thorough: length-3 schemas over 12 of the 16 kinds (the middle-width integers i16, i32, u16, u32 are left out)
+    const schemas_t        schemas(T ? 3 : 2, {0, 1, 2, 3, 4, 5, 6, 9, 10, 13, 14, 15});
     const std::vector<int> Ns = {1, 7, 8, 9, 17};
     // (target kind or -1, stack): every target kind once with the identity stack; the other stacks with 3 targets
     std::vector<std::pair<int, int>> combos;
@@ -1373,8 +1373,8 @@ int stage_views(const args_t& args, report_t& r)
     }
     const auto schema_text = jobj(
         {{"kinds", kinds_json()},
-         {"sequences", jstr(T ? "all of length 1..2 over the 16 kinds, all of length 3 over {sclass3, sclass300, mclass3, f32, i8, u64, "
-                                "sf32_2x1x2, su8_3x3x2}, 4 fixed 12-feature schemas"
+         {"sequences", jstr(T ? "all of length 1..2 over the 16 kinds, all of length 3 over the 12 kinds without i16, i32, u16, u32, "
+                                "4 fixed 12-feature schemas"
                               : "all of length 1..2 over the 16 kinds, 4 fixed 12-feature schemas")}});
     r.axis("sample_index_lists", LISTS_JSON);
     r.axis("iterator_batch_sizes", jstr("1, 2, N, N+1 (plus cached flatten/targets with batch 2)"));
